@@ -143,7 +143,7 @@ def make_context(default_deriving=(), include_dirs=(), generate_extra=None):
     return API().configure(options={"generate": gen} if gen else {"generate": {"support_lib_sources": True}})
 
 
-def real_parse(ctx, path: Path, root: Path | None = None):
+def real_parse(ctx, path: Path, root: Path | None = None, with_defs: bool = False):
     """Run the real parser on `path`; canonical outcome. File names are mapped to '/'+relative path
     under `root` (the sandbox directory) so that they can be compared with the model's."""
     from pydjinni.exceptions import ApplicationException, ApplicationExceptionList, FileNotFoundException
@@ -177,7 +177,12 @@ def real_parse(ctx, path: Path, root: Path | None = None):
 
     try:
         res = ctx.parse(path)
-        return {"kind": "ok", "ast": [dump_node(n) for n in res.ast], "result": res, "bindings": bindings(res.refs), "decls": decl_names(res.defs)}
+        out = {"kind": "ok", "ast": [dump_node(n) for n in res.ast], "result": res, "bindings": bindings(res.refs), "decls": decl_names(res.defs)}
+        if with_defs:
+            # every named declaration of the result (imported ones included), with the file it was written in
+            from pydjinni.parser.ast import Function
+            out["defs_dump"] = [{**dump_node(d), "file": fname(d.position.file)} for d in res.defs if not (isinstance(d, Function) and d.anonymous)]
+        return out
     except ApplicationExceptionList as e:
         return {"kind": "diags", "diags": [diag(i) for i in e.items], "bindings": bindings(getattr(e, "type_refs", [])),
                 "decls": decl_names(getattr(e, "type_decls", [])),
@@ -268,7 +273,9 @@ class Gen:
         r = self.r
         if not self.comments or r.random() < 0.6:
             return []
-        words = ['alpha', 'beta', 'gamma', 'x1', 'the', 'value', 'of', 'it.', '(see)', 'a-b', 'c_d']
+        words = ['alpha', 'beta', 'gamma', 'x1', 'the', 'value', 'of', 'it.', '(see)', 'a-b', 'c_d',
+                 # characters str.splitlines() breaks at but the grammar (COMMENT: '#' ~[\r\n]*) keeps inside the comment line
+                 'ff\x0cgg', 'ls\u2028tail;', 'nel\x85x', 'vt\x0bw', 'fs\x1cgs\x1d']
         lines = []
         for _ in range(r.choice([1, 1, 2, 3])):
             m = r.random()
